@@ -109,13 +109,13 @@ Definition md5_init (st : md5_state) : md5_state := mk_md5 0 0 md5_abcd0 (m_buf 
 Definition md5_new : md5_state := mk_md5 0 0 md5_abcd0 (repeat 0 64).
 
 (* for (; left >= 64; p += 64, left -= 64) md5_process(pms, p); *)
-Fixpoint md5_blocks (fuel : nat) (abcd : quad) (p : list N) : quad * list N :=
-  match fuel with
-  | O => (abcd, p)
-  | S f => if Nat.leb 64 (length p) then md5_blocks f (md5_process abcd (firstn 64 p)) (skipn 64 p)
-           else (abcd, p)
-  end.
+Definition md5_blocks (fuel : nat) (abcd : quad) (p : list N) : quad * list N :=
+  absorb_fuel md5_process fuel abcd p.
 
+(* the part of md5_append after the initial partial block: full blocks straight from the input, rest into buf *)
+Definition md5_tail (c0 c1 : N) (abcd : quad) (buf : list N) (q : list N) : md5_state :=
+  let '(abcd', rest) := md5_blocks (length q) abcd q in
+  mk_md5 c0 c1 abcd' (poke buf 0 rest).        (* if (left) memcpy(pms->buf, p, left) *)
 (* md5_append(pms, p, nbytes) with nbytes = |p| as an int, 0 < nbytes < 2^31 (callers below guarantee it) *)
 Definition md5_append_c (st : md5_state) (p : list N) : md5_state :=
   let nbytes := len p in
@@ -125,15 +125,12 @@ Definition md5_append_c (st : md5_state) (p : list N) : md5_state :=
   let c1 := add32 (m_count1 st) (N.shiftr nbytes 29) in
   let c0 := add32 (m_count0 st) nbits in
   let c1 := if c0 <? nbits then add32 c1 1 else c1 in
-  let tail (abcd : quad) (buf : list N) (q : list N) : md5_state :=
-      let '(abcd', rest) := md5_blocks (length q) abcd q in
-      mk_md5 c0 c1 abcd' (poke buf 0 rest) in        (* if (left) memcpy(pms->buf, p, left) *)
-  if offset =? 0 then tail (m_abcd st) (m_buf st) p
+  if offset =? 0 then md5_tail c0 c1 (m_abcd st) (m_buf st) p
   else
     let copy := if 64 <? offset + nbytes then 64 - offset else nbytes in
     let buf1 := poke (m_buf st) offset (take copy p) in
     if offset + copy <? 64 then mk_md5 c0 c1 (m_abcd st) buf1
-    else tail (md5_process (m_abcd st) buf1) buf1 (drop copy p).
+    else md5_tail c0 c1 (md5_process (m_abcd st) buf1) buf1 (drop copy p).
 
 Definition md5_pad : list N := 128 :: repeat 0 63.
 Definition quad_le_bytes (q : quad) : list N :=
